@@ -3,6 +3,7 @@ import Driver.C10
 import Driver.C05
 import Driver.Enable
 import Driver.C13
+import Driver.C15
 open Driver
 
 def dispatch (line : String) : String :=
@@ -12,6 +13,7 @@ def dispatch (line : String) : String :=
   | "exit" :: args => C05.exit args
   | "checks" :: args => EnableOp.checks args
   | "merge" :: args => EnableOp.merge args
+  | "failover" :: args => C15.failoverOp args
   | "slice" :: args => C13.op "slice" args
   | "plan" :: args => C13.op "plan" args
   | "append" :: args => C13.op "append" args
